@@ -345,7 +345,7 @@ func c15Check(c *c15Case, files map[string]string) (got []string, sig, what stri
 func C15(r *core.Run) map[string]interface{} {
 	maxSeg := 4
 	if r.Thorough() {
-		maxSeg = 4
+		maxSeg = 5
 	}
 	sp := c15Spellings(maxSeg)
 	files := c15Files()
